@@ -374,6 +374,13 @@ def suite_resamplers(ctx):
         finally:
             B._get_fractional_distances = orig
             B._get_four_closest_corners = orig_corners
+        if "cp" not in cap or not hasattr(rs, "_valid_output_indices"):
+            # the coarse reduction left no source point: the resampler holds the all-NaN look-up tables and produces no value anywhere
+            ctx.count("res.empty_after_reduction")
+            ctx.case("resampler-info", (label, neighbours, reduce_data, "empty"), nontrivial=False)
+            if not np.isnan(np.asarray(rs.bilinear_t, float)).all():
+                ctx.fail("bilinear.NumpyBilinearResampler.get_bil_info", "no source point is left but fractional distances exist", inp0, None, tags={"cause": "empty-info"}, size=tgt.size)
+            continue
         t_, s_ = np.asarray(rs.bilinear_t, float), np.asarray(rs.bilinear_s, float)
         has = ~np.isnan(t_) & ~np.isnan(s_)
         voi = np.asarray(rs._valid_output_indices)
